@@ -322,7 +322,7 @@ fn parse_next_value(
                     break;
                 } else if !using_quotes
                     && (character == ' '
-                        || character == '#'
+                        || (character == '#' && !control_as_char)
                         || (stop_on_equals && character == '='))
                 {
                     if character == ' ' || character == '=' {
@@ -335,7 +335,7 @@ fn parse_next_value(
                 } else {
                     argument.push(character);
                 }
-            } else if character == '#' {
+            } else if character == '#' && !control_as_char {
                 index = end_index;
                 break;
             } else if character != ' ' {
